@@ -21,7 +21,7 @@ RULE = ("Case = one file with a random section tree and, in each of two blocks, 
         "pattern, mutation kinds, reopened mode); trivial = files with fewer than 3 tree nodes.")
 ASSUMPTIONS = ["depth origin: the searched section/source is depth 0; on File/Block the top level is depth 1; limit=0 on File/Block "
                "is not judged (A2)",
-               "referring_objects is judged as the concatenation of the per-kind lists that the class offers (A18)",
+               "referring_objects is judged as the inverse of the metadata links of every kind of holder (blocks, groups, arrays, frames, tags, multi-tags, sources)",
                "order inside a referring_* list is not judged (the statement fixes the set and multiplicity: 'exactly the inverse')"]
 
 NSHARDS = 16
@@ -285,13 +285,15 @@ class Case:
     def judge_referring(self, f, when):
         ctx = self.ctx
         SEC = [("Block", "referring_blocks"), ("Group", "referring_groups"), ("DataArray", "referring_data_arrays"), ("Tag", "referring_tags"),
-               ("MultiTag", "referring_multi_tags"), ("Source", "referring_sources")]
+               ("MultiTag", "referring_multi_tags"), ("Source", "referring_sources"), ("DataFrame", "referring_data_frames")]
         for n in self.all_sec():
             s = self.sec_handles(f, n)[0][1]
             allexp = []
             for kind, attr in SEC:
                 exp = sorted(i for (k, i), sid in self.md.items() if k == kind and sid == n.id)
                 allexp += exp
+                if kind == "DataFrame" and not hasattr(type(s), attr):
+                    continue        # no per-kind list for frames: they still belong to referring_objects (the inverse of ALL metadata links)
                 ctx.count("referring_queries")
                 try:
                     got = sorted(x.id for x in getattr(s, attr))
